@@ -257,6 +257,8 @@ pub struct Bounds {
     /// longest chain the batches refused by try_from are derived from (reversed / doubled
     /// element / mixed: this length; gap: this length + 1, so that one element can go)
     pub max_inv_len: usize,
+    /// false: only the operations that can succeed (valid chains, remove, mark, metadata)
+    pub invalid_batches: bool,
     pub depth: usize,
     pub max_states: usize,
     pub wall_cap: Duration,
@@ -285,8 +287,14 @@ pub fn static_ops(fx: &Fixture, bd: &Bounds) -> Vec<Op> {
     }
     for h in 0..=fx.n + 1 {
         for cids in [vec![0u8], vec![1], vec![0, 1]] {
-            ops.push(Op::Meta { h, cids });
+            // the narrow search adds {c0,c1} as {c0} then {c1}
+            if bd.invalid_batches || cids.len() == 1 {
+                ops.push(Op::Meta { h, cids });
+            }
         }
+    }
+    if !bd.invalid_batches {
+        return ops;
     }
     // invalid batches that the real try_from must refuse
     push(&mut ops, vec![], "empty", vec![]);
@@ -330,6 +338,9 @@ pub fn static_ops(fx: &Fixture, bd: &Bounds) -> Vec<Op> {
 /// position that keeps P's first and last element (so the batch covers P's range).
 pub fn dup_hash_ops(fx: &Fixture, bd: &Bounds, model: &Model, paths: &[Vec<Hid>]) -> Vec<Op> {
     let mut ops = vec![];
+    if !bd.invalid_batches {
+        return ops;
+    }
     for p in paths.iter().filter(|p| p.len() >= 2 && p.len() <= bd.max_dup_len) {
         let mut m = model.clone();
         if m.insert(fx, p, true) != Kind::Ok {
@@ -981,14 +992,13 @@ impl Live {
         Live::open(InMemoryStore::new(), Pages::default()).await
     }
 
-    /// Snapshot of the current contents: the in-memory store is moved out (and replaced by
-    /// `mem_replacement`), the redb image is copied (all operations have been awaited, so
-    /// no transaction is open: the image is what a process kill between two operations
-    /// leaves; redb repairs it on open).
-    async fn snapshot(&mut self, mem_replacement: InMemoryStore) -> (Arc<Either>, Arc<Pages>) {
-        let mem = std::mem::replace(&mut self.mem, EitherStore::Left(mem_replacement));
+    /// Snapshot of the current contents: the in-memory store is cloned, the redb image is
+    /// copied (all operations have been awaited, so no transaction is open: the image is
+    /// what a process kill between two operations leaves; redb repairs it on open).
+    async fn snapshot(&self) -> (Arc<Either>, Arc<Pages>) {
+        let mem = self.mem.left().expect("left").async_clone().await;
         let img = self.backend.0.lock().unwrap().clone();
-        (Arc::new(mem), Arc::new(img))
+        (Arc::new(EitherStore::Left(mem)), Arc::new(img))
     }
 
     /// Rolls the redb database back to the state it was opened at.
@@ -1042,6 +1052,7 @@ pub struct Env {
     pub deadline: std::time::Instant,
     pub skipped: AtomicU64,
     pub nontrivial: AtomicU64,
+    pub probes: AtomicU64,
     next_sid: AtomicU64,
     pub thaws: AtomicU64,
     pub reused: AtomicU64,
@@ -1071,6 +1082,7 @@ impl Env {
             deadline: std::time::Instant::now() + Duration::from_secs(86_400),
             skipped: AtomicU64::new(0),
             nontrivial: AtomicU64::new(0),
+            probes: AtomicU64::new(0),
             next_sid: AtomicU64::new(1),
             thaws: AtomicU64::new(0),
             reused: AtomicU64::new(0),
@@ -1107,11 +1119,11 @@ impl Env {
 
     pub fn init(&self) -> (St, u64) {
         let r: Result<(St, u64), String> = block(async {
-            let mut live = Live::fresh().await?;
+            let live = Live::fresh().await?;
             let obs_mem = observe(&live.mem, &self.fx, false).await;
             let obs_redb = observe(&live.redb, &self.fx, false).await;
             let key = state_key(&obs_mem, &obs_redb);
-            let (mem, redb) = live.snapshot(InMemoryStore::new()).await;
+            let (mem, redb) = live.snapshot().await;
             live.discard().await;
             Ok((St { sid: 0, depth: 0, mem, redb, model: Model::default(), obs_mem: Arc::new(obs_mem), obs_redb: Arc::new(obs_redb) }, key))
         });
@@ -1329,8 +1341,7 @@ impl Env {
         // needed at the last level, whose states are never expanded)
         let last_level = st.depth + 1 >= self.bd.depth && !self.replaying;
         let (mem, redb) = if dirty && !last_level {
-            let parent_mem = st.mem.left().expect("left").async_clone().await;
-            live.snapshot(parent_mem).await
+            live.snapshot().await
         } else {
             (st.mem.clone(), st.redb.clone())
         };
@@ -1368,6 +1379,48 @@ impl Env {
                     }
                 }
             }
+        }
+        // ---- re-insertion probe after a successful removal (C19): what the removal left
+        // behind for that height cannot be seen by any query until a header is there again
+        if let (Op::Remove { h }, Kind::Ok, true) = (op, want, all.is_empty()) {
+            let candidates: Vec<Hid> = fx
+                .universe()
+                .into_iter()
+                .filter(|x| x.h == *h && model.clone().insert(fx, &[*x], true) == Kind::Ok)
+                .collect();
+            for (i, x) in candidates.iter().enumerate() {
+                if i > 0 {
+                    // back to the state after the removal
+                    if let Err(e) = self.put_back(st, &mut live).await {
+                        self.machinery(e);
+                        break;
+                    }
+                    apply_real(&live.mem, fx, op).await;
+                    apply_real(&live.redb, fx, op).await;
+                }
+                self.probes.fetch_add(1, Ordering::Relaxed);
+                let probe = Op::Insert { batch: vec![*x], checked: true, shape: "reinsert-probe".into(), corrected: vec![] };
+                let mut m2 = model.clone();
+                let want2 = m2.apply(fx, &probe);
+                let want2_obs = m2.observe(fx, false);
+                for (name, s) in [("inmemory", &live.mem), ("redb", &live.redb)] {
+                    let got2 = apply_real(s, fx, &probe).await;
+                    if got2.kind != want2.as_str() {
+                        all.push((
+                            Which::C19,
+                            format!("{name}-reinsert-after-removal-result-{}-expected-{}", got2.kind, want2.as_str()),
+                            format!("{name}: re-inserting {x} right after remove_height({h}) returned {} ({}), the model says {}", got2.kind, got2.detail, want2.as_str()),
+                        ));
+                    } else if let Some(d) = obs_diff(&want2_obs, &observe(s, fx, false).await) {
+                        all.push((
+                            Which::C19,
+                            format!("{name}-reinsert-after-removal-differs-from-model"),
+                            format!("{name}: after remove_height({h}) and re-inserting {x}: {d}"),
+                        ));
+                    }
+                }
+            }
+            dirty = true;
         }
         self.lap(5, &mut t);
         // keep the live objects for the next operation on this state
@@ -1475,7 +1528,10 @@ the model accepts in this state, with each stored header inserted at each interi
 later position that keeps first/last; remove_height(h), mark_as_sampled(h), update_sampling_metadata(h, {c0}|{c1}|{c0,c1}) for \
 every h in 0..=N+1. quick: N=5 L=3 I=2 D=2 depth 3. thorough: two searches, N=6 L=4 I=4 D=3 depth 3 and N=5 L=3 I=2 D=2 depth 5. \
 Every transition is executed on InMemoryStore and RedbStore (both behind EitherStore) and on the reference model; after every \
-rejected batch whose correction the model accepts, the corrected batch is applied to the same objects. state = distinct total \
+rejected batch whose correction the model accepts, the corrected batch is applied to the same objects; after every successful \
+remove_height(h), every single header of height h that the model accepts back is re-inserted on the same objects and compared \
+with the model (removal is the one operation that makes data unobservable, so this probe is what keeps de-duplication on \
+observations sound). state = distinct total \
 observation; transition = one execution of the real operation on both backends (counted by the engine; see `searches` for the \
 per-search counts); (state, operation) pairs are distinct by construction; non-trivial = the operation was applied to a non-empty store";
 
@@ -1489,7 +1545,7 @@ pub const ASSUMPTIONS: &[&str] = &[
 ];
 
 fn bounds(n: u64, max_len: usize, max_dup_len: usize, max_inv_len: usize, depth: usize) -> Bounds {
-    Bounds { n, max_len, max_dup_len, max_inv_len, depth, max_states: 3_000_000, wall_cap: Duration::from_secs(86_400) }
+    Bounds { n, max_len, max_dup_len, max_inv_len, invalid_batches: true, depth, max_states: 3_000_000, wall_cap: Duration::from_secs(86_400) }
 }
 
 pub fn run(id: &str, which: Which) -> ! {
@@ -1565,7 +1621,7 @@ pub fn run(id: &str, which: Which) -> ! {
         }
         let prof: Vec<f64> = env.prof.iter().map(|a| a.load(Ordering::Relaxed) as f64 / 1e9).collect();
         per_search.push(json!({
-            "bounds": {"N": env.bd.n, "L": env.bd.max_len, "D": env.bd.max_dup_len, "I": env.bd.max_inv_len, "depth": env.bd.depth},
+            "bounds": {"N": env.bd.n, "L": env.bd.max_len, "D": env.bd.max_dup_len, "I": env.bd.max_inv_len, "invalid_batches": env.bd.invalid_batches, "depth": env.bd.depth},
             "states": rep.states - s0,
             "transitions": rep.transitions - tr0,
             "skipped_by_wall_cap": skipped,
@@ -1573,6 +1629,7 @@ pub fn run(id: &str, which: Which) -> ! {
             "static_alphabet_size": env.statics.len(),
             "corrected_batches_tried": env.corrections.load(Ordering::Relaxed),
             "corrected_batches_applied_after_the_rejection": env.corrections_accepted.load(Ordering::Relaxed),
+            "reinsert_probes_after_removal": env.probes.load(Ordering::Relaxed),
             "snapshot_restores": env.thaws.load(Ordering::Relaxed),
             "transitions_on_reused_live_objects": env.reused.load(Ordering::Relaxed),
             "savepoint_rollbacks": env.rollbacks.load(Ordering::Relaxed),
